@@ -10,6 +10,8 @@ use crate::p3::simba::simd::SimdValue;
 pub mod c09b;
 #[path = "c09c.rs"]
 pub mod c09c;
+#[path = "c09d.rs"]
+pub mod c09d;
 
 fn aabb(a: &mut Args) -> Aabb { Aabb::new(d3::p(a), d3::p(a)) }
 fn faabb(b: &Aabb) -> String { format!("{} {}", d3::fp(&b.mins), d3::fp(&b.maxs)) }
@@ -22,6 +24,7 @@ fn interval(a: &mut Args) -> Interval<f64> { Interval(a.f(), a.f()) }
 pub fn exec(func: &str, a: &mut Args) -> String {
     if let Some(r) = c09b::exec(func, a) { return r; }
     if let Some(r) = c09c::exec(func, a) { return r; }
+    if let Some(r) = c09d::exec(func, a) { return r; }
     match func {
         "interval_add" => { let x = interval(a); let y = interval(a); fint(x + y) }
         "interval_sub" => { let x = interval(a); let y = interval(a); fint(x - y) }
@@ -177,5 +180,6 @@ pub fn gen(r: &mut Rng, thorough: bool) -> Vec<(String, String)> {
     }
     c09b::gen(r, thorough, &mut v);
     c09c::gen(r, thorough, &mut v);
+    c09d::gen(r, thorough, &mut v);
     v
 }
